@@ -222,6 +222,9 @@ func (cb *concreteBuilder) build(ty *STy, j interface{}, reuse Value) (Value, bo
 // exists) - otherwise the clause stays undetermined
 var concMaxLen int64
 
+// witnessBudgetSecs: wall-clock budget of one concrete search / bounded check (set by tier)
+var witnessBudgetSecs = 45
+
 type concCall struct {
 	seq  int
 	kind string
@@ -929,7 +932,7 @@ func (w *World) witnessFor(fs *FuncSpec, model map[string]string, repo string, n
 	sc := bufio.NewScanner(f)
 	sc.Buffer(make([]byte, 1<<20), 1<<26)
 	tried, admissible := 0, 0
-	stopAt := time.Now().Add(75 * time.Second) // the concrete search only attaches inputs: bounded effort
+	stopAt := time.Now().Add(time.Duration(witnessBudgetSecs) * time.Second) // bounded effort
 	for sc.Scan() {
 		if time.Now().After(stopAt) {
 			break
@@ -990,7 +993,7 @@ func (w *World) checkRecord(fi *FuncInfo, fs *FuncSpec, rec map[string]interface
 	w.initPhase = true // concrete tables are not needed; invariants are not assumed
 	w.concreteMode = true
 	defer func() { w.concreteMode = false }()
-	ge := &groundEval{w: w, dom: 330, budget: 400000, memo: map[*Term]*Term{}, deadline: time.Now().Add(3 * time.Second)}
+	ge := &groundEval{w: w, dom: 330, budget: 400000, memo: map[*Term]*Term{}, deadline: time.Now().Add(1500 * time.Millisecond)}
 	pre := x.funcEnv(fi, "pre", old, nil, args, nil)
 	for _, c := range fs.Clauses {
 		if c.Kind != "requires" {
